@@ -669,7 +669,15 @@ func (g *Gen) opWait(t *Table) []Op {
 
 func (g *Gen) failingOp() (Op, string) {
 	t := g.table()
-	switch g.pick(11) {
+	switch g.pick(12) {
+	case 11:
+		// a named uuid that no insert of this transaction declares
+		for _, cn := range t.ColNames {
+			c := t.Columns[cn]
+			if !c.Type.IsMap() && c.Type.Key.Type == "uuid" && c.Type.Min == 0 && !c.Immutable {
+				return Op{"op": "insert", "table": t.Name, "row": map[string]any{cn: []any{"named-uuid", "nobody_declares_" + g.tag}}}, "undeclared-name"
+			}
+		}
 	case 0:
 		return Op{"op": "insert", "table": "NoSuchTable", "row": map[string]any{}}, "unknown-table"
 	case 1:
@@ -861,7 +869,14 @@ func (g *Gen) Txn() ([]Op, TxnMeta) {
 		ops = append(ops, add...)
 	}
 	if g.chance(g.prof.IndexPlay) {
-		if play, kind := g.indexPlay(); play != nil {
+		// the operations built so far are dropped: so are the names they declared
+		saveNamed, saveDecl := g.named, g.decl
+		g.named, g.decl = map[string][]string{}, map[string]string{}
+		play, kind := g.indexPlay()
+		if play == nil {
+			g.named, g.decl = saveNamed, saveDecl
+		}
+		if play != nil {
 			meta.Planted = "index:" + kind
 			meta.NamedDecl = g.decl
 			return play, meta
@@ -956,6 +971,41 @@ func (g *Gen) indexPlay() ([]Op, string) {
 	}
 	upd := func(u string, ix map[string]any) Op {
 		return Op{"op": "update", "table": t.Name, "where": g.whereUUID(u), "row": ix}
+	}
+	if g.chance(450) {
+		// the same patterns with operations in between and afterwards that look rows
+		// up through the values involved (a row that holds a value only transiently,
+		// or took it over, must be found through it by a later operation)
+		byValue := func(ix map[string]any) Op {
+			var conds []any
+			for _, c := range idx {
+				conds = append(conds, []any{c, "==", ix[c]})
+			}
+			if g.chance(500) {
+				return Op{"op": "select", "table": t.Name, "where": conds, "columns": []string{"_uuid", idx[0], "rank"}}
+			}
+			return Op{"op": "update", "table": t.Name, "where": conds, "row": map[string]any{"rank": 7000 + g.pick(1000)}}
+		}
+		va, vb := vals(a), vals(b)
+		var base []Op
+		kind := ""
+		switch g.pick(3) {
+		case 0:
+			base, kind = []Op{upd(a, vb), upd(b, va)}, "swap"
+		case 1:
+			base, kind = []Op{upd(b, va), upd(a, fresh())}, "handover-taker-first"
+		default:
+			base, kind = []Op{upd(a, vb), upd(b, fresh())}, "take-then-release"
+		}
+		var out []Op
+		for _, op := range base {
+			out = append(out, op)
+			if g.chance(700) {
+				out = append(out, byValue([]map[string]any{va, vb}[g.pick(2)]))
+			}
+		}
+		out = append(out, byValue(va), byValue(vb))
+		return out, kind + "+lookups"
 	}
 	switch g.pick(8) {
 	case 0:
